@@ -162,15 +162,15 @@ def check_reset_new(run, cx, cfg):
                 if bad:
                     break
                 continue
-            if len(loops) != 1:
-                bad = 'expected one loop over the window'
+            if not loops:
+                bad = 'expected a loop over the window'
                 break
-            it = loops[0]['iter']
-            src = p['events'][it[1]] if it[0] == 'ret' else None
-            if not src or rp(src) != 'dasp_ring_buffer::Fixed::<S>::iter_mut' or src['args'][0] != ('ref', self_loc(wi)):
+            # one pass over window.iter_mut(), or over both halves of window.slices_mut() (chained, or one loop each)
+            covers = [slot_cover(p, l['iter'], ('ref', self_loc(wi))) for l in loops]
+            if any(c is None for c in covers) or (p['end'] == 'return' and not covers_all(covers)):
                 bad = 'must iterate window.iter_mut() (every slot)'
                 break
-            nk = loops[0]['next']
+            nk = loops[-1]['next']
             d = dict(cond_facts(p)).get(('discr', ('ret', nk)))
             if d == ('int', 1, 'isize'):
                 el = ('field', ('variant', ('ret', nk), 1), 0)
@@ -178,7 +178,7 @@ def check_reset_new(run, cx, cfg):
                 if w is None or not eq(w):
                     bad = 'each slot must be set to EQUILIBRIUM'
                 kinds.add('slot')
-            elif d == ('int', 0, 'isize'):
+            elif d == ('int', 0, 'isize') and p['end'] == 'return':
                 w = heap_writes(p).get(self_loc(si))
                 if w is None or not eq(w):
                     bad = 'the running sum must be set to EQUILIBRIUM after the loop'
